@@ -10,8 +10,6 @@ import (
 	"sort"
 	"strings"
 
-	"github.com/spf13/viper"
-
 	"github.com/atlassian/gostatsd"
 	"github.com/atlassian/gostatsd/pkg/backends/statsdaemon"
 
@@ -74,7 +72,7 @@ func relayExpected(w *workload, c relayCfg) (*ref.Folded, map[string][]float64) 
 func runRelay(e *env, cs *caseRef, w *workload, rng *rand.Rand) {
 	c := relayCfg{TCP: rng.Intn(3) == 0, DisableTags: rng.Intn(4) == 0}
 	cs.Config = c
-	v := viper.New()
+	v := newCfg()
 	v.Set("statsdaemon.address", "127.0.0.1:8125")
 	if c.TCP {
 		v.Set("statsdaemon.tcp_transport", true)
@@ -82,7 +80,7 @@ func runRelay(e *env, cs *caseRef, w *workload, rng *rand.Rand) {
 	if c.DisableTags {
 		v.Set("statsdaemon.disable_tags", true)
 	}
-	be, err := statsdaemon.NewClientFromViper(v, e.logger, e.pool)
+	be, err := e.initBackend(cs, "statsdaemon", v, rng)
 	if err != nil {
 		e.r.Inconclusive("statsdaemon:factory-error")
 		return
